@@ -32,3 +32,7 @@ def replay(ctx, path):
     _, _, rej = validate_all(ctx, "ConnMgrTrace.tla", "ConnMgrTrace.cfg", seg)
     log("replay: %s" % ("rejected: %s" % rej[0].reason if rej else "accepted"))
     return 1 if rej else 0
+
+
+def selftest(ctx):
+    return cm.selftest(ctx, "C05")
